@@ -152,6 +152,8 @@ def _draw_grid(space, agent_portrayal):
             )
 
     invalid_tooltips = ["color", "size", "x", "y"]
+    # the encoding is derived from the first agent; a space without agents gives an empty chart
+    first_agent_data = all_agent_data[0] if all_agent_data else {}
 
     x_y_type = "ordinal" if not isinstance(space, ContinuousSpace) else "nominal"
 
@@ -162,14 +164,14 @@ def _draw_grid(space, agent_portrayal):
         "y": alt.Y("y", axis=None, type=x_y_type),
         "tooltip": [
             alt.Tooltip(key, type=alt.utils.infer_vegalite_type_for_pandas([value]))
-            for key, value in all_agent_data[0].items()
+            for key, value in first_agent_data.items()
             if key not in invalid_tooltips
         ],
     }
-    has_color = "color" in all_agent_data[0]
+    has_color = "color" in first_agent_data
     if has_color:
         encoding_dict["color"] = alt.Color("color", type="nominal")
-    has_size = "size" in all_agent_data[0]
+    has_size = "size" in first_agent_data
     if has_size:
         encoding_dict["size"] = alt.Size("size", type="quantitative")
 
